@@ -50,9 +50,11 @@ def _node_at(spec, path):
     return node
 
 
-def worker(depth, hash_name, out_path):
+def worker(depth, hash_name, out_path, order="fwd"):
     import joblib
     specs = V.universe(depth)
+    if order == "rev":
+        specs = list(reversed(specs))
     table = {}
     order_bad = []
     nvariants = 0
@@ -69,6 +71,13 @@ def worker(depth, hash_name, out_path):
             if d != d0:
                 (path, p), = perm.items()
                 order_bad.append([c, _node_at(s, path)[0], "insertion order %s at node %s" % (list(p), list(path))])
+    # purity: hashing the universe again in the opposite order must give the same digests
+    # (a digest that depends on what was hashed earlier in the process is not a function of the value)
+    for s in reversed(specs):
+        c = V.canon(s)
+        d = joblib.hash(V.build(s), hash_name=hash_name)
+        if d != table[c]:
+            order_bad.append([c, "history", "hashing history: digest %s when hashed after the rest of the universe, %s before" % (d, table[c])])
     # equal but distinct str / bytes objects vs the same object twice
     ident_bad = []
     for label, mk in (("str", lambda: "".join(["spam", "eggs"])), ("bytes", lambda: bytes(bytearray(b"spameggs")))):
@@ -85,10 +94,10 @@ def worker(depth, hash_name, out_path):
                    "flags_hash_randomization": sys.flags.hash_randomization}, f)
 
 
-def _spawn(depth, hash_name, seed, out_path):
+def _spawn(depth, hash_name, seed, out_path, order="fwd"):
     env = dict(os.environ)
     env["PYTHONHASHSEED"] = str(seed)
-    return subprocess.Popen([sys.executable, "-m", "vf.checks.c08", "--worker", str(depth), hash_name, out_path],
+    return subprocess.Popen([sys.executable, "-m", "vf.checks.c08", "--worker", str(depth), hash_name, out_path, order],
                             env=env, cwd=core.ROOT, stdin=subprocess.DEVNULL)
 
 
@@ -103,19 +112,22 @@ def run(ctx):
     for hn in ("md5", "sha1"):
         for i, sd in enumerate(seeds):
             out = os.path.join(d, "%s-%d.json" % (hn, i))
-            jobs.append((hn, sd, out))
+            jobs.append((hn, sd, out, "fwd"))
+        # same seed, the universe hashed in the opposite order in a fresh process
+        jobs.append((hn, seeds[0], os.path.join(d, "%s-rev.json" % hn), "rev"))
     results = {}
     pending = list(jobs)
     running = []
     while pending or running:
         while pending and len(running) < core.NPROC:
-            hn, sd, out = pending.pop(0)
-            running.append((hn, sd, out, _spawn(depth, hn, sd, out)))
-        hn, sd, out, p = running.pop(0)
+            hn, sd, out, order = pending.pop(0)
+            running.append((hn, sd, out, order, _spawn(depth, hn, sd, out, order)))
+        hn, sd, out, order, p = running.pop(0)
         if p.wait() != 0:
             raise core.HarnessError("c08 worker failed (seed %s, %s)" % (sd, hn))
         with open(out) as f:
             results[(hn, sd, out)] = json.load(f)
+            results[(hn, sd, out)]["order"] = order
         os.unlink(out)
     specs = V.universe(depth)
     by_canon = {V.canon(s): s for s in specs}
@@ -132,12 +144,17 @@ def run(ctx):
             for c, dg in r["table"].items():
                 if dg != ref["table"][c]:
                     kinds = "+".join(sorted(_kinds(by_canon[c]) & {"set", "frozenset", "dict"})) or "ordered"
+                    if r.get("order") == "rev" and sd == ref_key[1]:
+                        ctx.violation("history-dependent|%s" % kinds,
+                                      "joblib.hash(%s, %r) is %s when the universe is hashed simplest-first but %s when hashed in the opposite order in a fresh process (same PYTHONHASHSEED=%s): the digest depends on what was hashed before" % (c, hn, ref["table"][c], dg, sd),
+                                      {"kind": "history", "canon": c, "hash_name": hn, "seeds": [sd], "depth": depth})
+                        continue
                     ctx.violation("seed-dependent|%s" % kinds,
                                   "joblib.hash(%s, %r) is %s with PYTHONHASHSEED=%s but %s with PYTHONHASHSEED=%s"
                                   % (c, hn, ref["table"][c], ref_key[1], dg, sd),
                                   {"kind": "seed", "canon": c, "hash_name": hn, "seeds": [ref_key[1], sd], "depth": depth})
             for c, nodekind, what in r["order_bad"]:
-                ctx.violation("insertion-order|%s" % nodekind,
+                ctx.violation(("insertion-order|%s" % nodekind) if nodekind != "history" else "history-dependent",
                               "joblib.hash(%s, %r) changes with %s (PYTHONHASHSEED=%s)" % (c, hn, what, sd),
                               {"kind": "order", "canon": c, "hash_name": hn, "seeds": [sd], "depth": depth})
             for label, shape in r["ident_bad"]:
@@ -202,4 +219,4 @@ def replay(data):
 
 if __name__ == "__main__":
     if len(sys.argv) > 1 and sys.argv[1] == "--worker":
-        worker(int(sys.argv[2]), sys.argv[3], sys.argv[4])
+        worker(int(sys.argv[2]), sys.argv[3], sys.argv[4], sys.argv[5] if len(sys.argv) > 5 else "fwd")
